@@ -115,33 +115,58 @@ func noCollisionAtAll(bkt *Bucket) bool {
 //@   ensures bkt.hints.maxDumpableChunkID == MAX_NUM_CHUNK-1
 
 // the writer must exist; the record lands at the write head, which advances by the record's size
+// (body verified; the encoding written to the stream is WriteRecord.append's contract, C09)
 //@ func (dc *dataChunk) AppendRecordGC
 //@   props C03 C18
 //@   ints math
-//@   assumed writes one record at the GC write head (the encoding is WriteRecord.append, verified under C09; a failed write stops the process)
-//@   requires wrec != nil && wrec.rec != nil && wrec.rec.Payload != nil && dc.gcWriter != nil
-//@   modifies dc.writingHead, dc.size, wrec.pos.ChunkID, wrec.pos.Offset, ghostFail()
+//@   nooverflow
+//@   unreachable_ok a failed write stops the process (logger.Fatalf): the error return is dead
+//@   requires wrec != nil && wrec.rec != nil && wrec.rec.Payload != nil && dc.gcWriter != nil && dc.gcWriter.wbuf != nil
+//@   requires len(wrec.rec.Key) <= 255 && len(wrec.rec.Payload.Body) < 1<<31 && !sameArray(wrec.rec.Key, wrec.header[:]) && !sameArray(wrec.rec.Payload.Body, wrec.header[:])
+//@   modifies dc.writingHead, dc.size, wrec.pos.ChunkID, wrec.pos.Offset, wrec.header, dc.gcWriter.offset, ghostStream(dc.gcWriter.wbuf), ghostFail()
 //@   ensures err == nil && offset == old(dc.writingHead) && int64(dc.writingHead) == int64(old(dc.writingHead))+int64(wrec.rec.Payload.RecSize)
 //@   ensures old(dc.size) <= dc.writingHead ==> dc.size == dc.writingHead
 //@   ensures old(dc.size) > dc.writingHead ==> dc.size == old(dc.size)
+//@   ensures wrec.pos.ChunkID == dc.chunkid && wrec.pos.Offset == offset
+
+//@ func (stream *DataStreamWriter) append
+//@   props C03 C18 C09
+//@   ints math
+//@   nooverflow
+//@   requires wrec != nil && wrec.rec != nil && wrec.rec.Payload != nil && stream.wbuf != nil
+//@   requires len(wrec.rec.Key) <= 255 && len(wrec.rec.Payload.Body) < 1<<31 && !sameArray(wrec.rec.Key, wrec.header[:]) && !sameArray(wrec.rec.Payload.Body, wrec.header[:])
+//@   modifies stream.offset, wrec.header, ghostStream(stream.wbuf), ghostFail()
+//@   ensures offset == old(stream.offset)
+
+//@ func (stream *DataStreamWriter) Close
+//@   props C03 C18
+//@   ints math
+//@   assumed flushes and closes the writer's file
+//@   modifies ghostFail()
+
+// cuts the file at size (removes it for size 0)
+//@ func (dc *dataChunk) Truncate
+//@   props C03 C18
+//@   ints math
+//@   assumed os.Stat / os.Truncate / remove on the chunk's path
+//@   modifies ghostFail()
 
 // TRUNCATE: a rewritten file is cut at its write head - legal only after its scan is complete
+// (precondition); whatever happens the chunk ends idle (body verified)
 //@ func (dc *dataChunk) endGCWriting
 //@   props C03 C18
 //@   ints math
-//@   assumed closes the GC writer and truncates a rewritten file at the write head (os.Truncate / remove)
-//@   requires ghostScanEnd != nil
+//@   requires ghostScanEnd != nil && (dc.gcWriter != nil ==> dc.gcWriter.wbuf != nil)
 //@   requires dc.rewriting && dc.writingHead < dc.size ==> ghostScanEnd[dc]
-//@   modifies dc.gcWriter, dc.size, dc.rewriting, ghostFail()
+//@   modifies dc.gcWriter, dc.size, dc.rewriting, ghostStream(dc.gcWriter.wbuf), ghostFail()
 //@   ensures dc.gcWriter == nil && !dc.rewriting
 //@   ensures old(dc.rewriting) && dc.writingHead < old(dc.size) ==> dc.size == dc.writingHead
 //@   ensures !(old(dc.rewriting) && dc.writingHead < old(dc.size)) ==> dc.size == old(dc.size)
 
-// the file is removed: never the one a pass is writing to
+// the file is removed: never the one a pass is writing to (body verified for the chunk's fields)
 //@ func (dc *dataChunk) Clear
 //@   props C03 C18
 //@   ints math
-//@   assumed removes the chunk's data file
 //@   requires !dc.rewriting && dc.gcWriter == nil
 //@   modifies dc.wbuf, dc.size, dc.rewriting, dc.gcWriter, dc.gcbufsize, dc.writingHead, ghostFail()
 //@   ensures dc.size == 0 && dc.writingHead == 0 && !dc.rewriting && dc.gcWriter == nil
@@ -242,13 +267,13 @@ func gcReaderOK(bkt *Bucket, r *DataStreamReader, src int) bool {
 //@   ghost after set#1: lemmaRepointed(bkt, ki, found, newPos)
 //@   loop 1 invariant gc.Dst == startChunkID && -1 <= i && i < startChunkID
 //@   loop 2 invariant !ioFailed() && gcBktOK(bkt) && gc.Begin == startChunkID && gc.End == endChunkID && startChunkID <= gc.Src && gc.Src <= endChunkID+1
-//@   loop 2 invariant 0 <= gc.Dst && gc.Dst <= gc.Src && gc.Dst <= endChunkID && dstchunk == &bkt.datas.chunks[gc.Dst] && dstchunk.gcWriter != nil && newPos.ChunkID == gc.Dst
+//@   loop 2 invariant 0 <= gc.Dst && gc.Dst <= gc.Src && gc.Dst <= endChunkID && dstchunk == &bkt.datas.chunks[gc.Dst] && dstchunk.gcWriter != nil && dstchunk.gcWriter.wbuf != nil && newPos.ChunkID == gc.Dst
 //@   loop 2 invariant gc.Dst == gc.Src ==> dstchunk.rewriting && dstchunk.writingHead == 0
 //@   loop 2 invariant dstchunk.rewriting && gc.Dst != gc.Src && dstchunk.writingHead < dstchunk.size ==> ghostScanEnd[dstchunk]
 //@   loop 2 invariant chunksIdleExcept(bkt.datas, gc.Dst)
 //@   loop 2 invariant forallU64(func(kh uint64) bool { return ghostTreeHas[bkt.htree][kh] == old(ghostTreeHas[bkt.htree][kh]) && ghostTreeVer[bkt.htree][kh] == old(ghostTreeVer[bkt.htree][kh]) && ghostTreeVhash[bkt.htree][kh] == old(ghostTreeVhash[bkt.htree][kh]) })
 //@   loop 3 invariant !ioFailed() && gcBktOK(bkt) && gc.Begin == startChunkID && gc.End == endChunkID && startChunkID <= gc.Src && gc.Src <= endChunkID
-//@   loop 3 invariant 0 <= gc.Dst && gc.Dst <= gc.Src && dstchunk == &bkt.datas.chunks[gc.Dst] && dstchunk.gcWriter != nil && newPos.ChunkID == gc.Dst && oldPos.ChunkID == gc.Src
+//@   loop 3 invariant 0 <= gc.Dst && gc.Dst <= gc.Src && dstchunk == &bkt.datas.chunks[gc.Dst] && dstchunk.gcWriter != nil && dstchunk.gcWriter.wbuf != nil && newPos.ChunkID == gc.Dst && oldPos.ChunkID == gc.Src
 //@   loop 3 invariant gcReaderOK(bkt, r, gc.Src)
 //@   loop 3 invariant gc.Dst == gc.Src ==> dstchunk.rewriting && dstchunk.writingHead <= r.offset      // IN PLACE: the write head never passes the read position
 //@   loop 3 invariant dstchunk.rewriting && gc.Dst != gc.Src && dstchunk.writingHead < dstchunk.size ==> ghostScanEnd[dstchunk]
